@@ -184,5 +184,23 @@ def call_matrix():
     return out
 
 
+def lifetime_probes():
+    """variable lifetimes around loops and calls (register allocation): loop-carried values, values
+    defined before / used after loops, nested loops, many live locals, values live across calls"""
+    out = []
+    F = HDR + "def f(n):\n"
+    out.append(("life:before_loop_read_inside", F + "    a = d0.Setting\n    b = d1.Setting\n    t = 0\n    for i in range(3):\n        x = a + i\n        y = x * b\n        t = t + y\n        d2.Setting = t\n    db.Setting = t + n\n\nf(d3.Setting)\nf(2)\n"))
+    out.append(("life:carried_prev", F + "    prev = 0\n    for i in range(3):\n        cur = Stack(d0)[i]\n        w = cur * 2\n        d1.Setting = w - prev\n        prev = cur\n    db.Setting = prev + n\n\nf(d3.Setting)\nf(2)\n"))
+    out.append(("life:nested_loops", F + "    total = 0\n    for i in range(2):\n        row = d0.Setting + i\n        for k in range(2):\n            cell = row * 10 + k\n            tmp = cell + n\n            total = total + tmp\n            d1.Setting = tmp\n        d2.Setting = row\n    db.Setting = total\n\nf(d3.Setting)\nf(2)\n"))
+    out.append(("life:used_after_loop", F + "    keep = d0.Setting * 2\n    other = d1.Setting + 1\n    c = 0\n    while c < 2:\n        c += 1\n        u = d2.Setting + c\n        v = u * u\n        d4.Setting = v\n    db.Setting = keep + other + n\n\nf(d3.Setting)\nf(2)\n"))
+    out.append(("life:while_cond_var", F + "    lim = d0.Setting\n    x = 0\n    while x < lim:\n        y = x * 2 + n\n        d1.Setting = y\n        x = x + 1\n        if x > 3:\n            break\n    db.Setting = x + lim\n\nf(d3.Setting)\nf(2)\n"))
+    out.append(("life:many_locals_loop", F + "    a = d0.Setting\n    b = d1.Setting\n    c = d2.Setting\n    d = d3.Setting\n    e = d4.Setting\n    for i in range(2):\n        p = a + b\n        q = c + d\n        r = e + i\n        s1 = p * q\n        s2 = q * r\n        db.Setting = s1 + s2 + n\n    db.Mode = a + b + c + d + e\n\nf(d5.Setting)\nf(2)\n"))
+    out.append(("life:call_in_loop", HDR + "def g(v):\n    t = v * 3\n    u = t + 1\n    db.Mode = u\n    return u - v\n\ndef f(n):\n    a = d0.Setting\n    acc = 0\n    for i in range(3):\n        b = a + i\n        r = g(b)\n        acc = acc + r + b\n        d1.Setting = acc\n    db.Setting = acc + a + n\n\nf(d3.Setting)\nf(2)\n"))
+    out.append(("life:main_loop_globals", HDR + "a = d0.Setting\nb = 0\nwhile True:\n    yield_()\n    t = d1.Setting + a\n    u = t * 2\n    b = b + u\n    db.Setting = b\n    if b > 100:\n        break\ndb.Mode = a + b\n"))
+    out.append(("life:loop_in_branch", F + "    a = d0.Setting\n    if a > 1:\n        for i in range(2):\n            z = a * i\n            d1.Setting = z\n    else:\n        z2 = a + 5\n        d2.Setting = z2\n    db.Setting = a + n\n\nf(d3.Setting)\nf(2)\n"))
+    out.append(("life:two_loops_seq", F + "    a = d0.Setting\n    for i in range(2):\n        p = a + i\n        d1.Setting = p\n    b = d2.Setting\n    for k in range(2):\n        q = b + k + a\n        d4.Setting = q\n    db.Setting = a + b + n\n\nf(d3.Setting)\nf(2)\n"))
+    return out
+
+
 def all_probes():
-    return comparison_probes() + range_probes() + boolean_probes() + arithmetic_probes() + call_probes() + access_probes() + call_matrix()
+    return comparison_probes() + range_probes() + boolean_probes() + arithmetic_probes() + call_probes() + access_probes() + call_matrix() + lifetime_probes()
